@@ -357,6 +357,9 @@ class Scn:
             if k == "next" and self.it_state == "open":
                 self.it_state = "closed" if isinstance(e, Exception) else "zombie"
             del e
+            if k == "frd" and op[1] and self.cd is not None and self.rec[self.cd]["owner"] == "caller":
+                # handed over with finalize=True to a constructor that failed: who owns it is not specified
+                self.rec[self.cd]["owner"] = "unspecified"
             if k in ("iter", "frd", "frd_stale", "badargs"):
                 gc.collect()         # a half-built iterator is garbage now: it must release what it owns
         finally:
@@ -399,6 +402,8 @@ class Scn:
             return None
         if rec["kind"] in ("oneshot", "failed-ctor"):
             return 1                                    # its operation is over
+        if rec["owner"] == "unspecified":
+            return None                                 # at most once
         if rec["owner"] == "caller":
             return 1 if rec["caller_fin"] else 0        # the caller kept ownership
         if rec["owner"] != self.gen or self.it is None:
@@ -480,7 +485,7 @@ class Scn:
             want = self.expected(i)
             if live or not (c == 1 and want == 1):
                 owner = rec.get("owner")
-                unsettled.append((rec.get("kind"), owner if owner in (None, "caller") else owner == self.gen,
+                unsettled.append((rec.get("kind"), owner if owner in (None, "caller", "unspecified") else owner == self.gen,
                                   rec.get("caller_fin"), c, want, i == self.it_data, i == self.cd))
         itc = None
         if self.it is not None:
